@@ -61,6 +61,15 @@ CHECKS = {
  'C11': ('Theorems C11.*: logs_are_transcript (logfile = reads and sends in operation order, logfile_read / logfile_send the two projections), '
          'logfile_read_eq_delivered, every_write_flushed. Tie: recording log objects on all transports and log combinations, types checked; interact() sessions.',
          'Log objects are only observed through write() and flush().', '4/C11'),
+ 'C09': ('Theorems C09.* over the life-cycle model (kernel signal/wait world + ptyprocess + spawn objects): reachable_inv (induction over every op sequence), '
+         'status_truth, exactly_one_status, status_stable, wait_returns_code, popen_wait_maps_negative. Tie: real pty children for exit codes and '
+         'terminating signals x observation paths x repetition orders, PopenSpawn.wait and run(withexitstatus); each op sequence replayed through the model.',
+         'A fatal signal is assumed to take effect within delayafterterminate; the kernel signal/wait world is validated by the same runs.', '4/C09'),
+ 'C10': ('Theorems C10.*: ops_keep_invariant (every op sequence), never_alive_after_reap, never_terminated_while_running, terminate_force_reaps and '
+         'close_reaps_and_releases for every disposition (running/stopped x ignores HUP x ignores INT x pending), close_releases_on_every_path, '
+         'close_idempotent, io_after_close_errors, io_never_foreign. Tie: op sequences over real children of every disposition (pty), fdspawn and '
+         'SocketSpawn analogues, descriptor and zombie accounting through /proc after del + gc.collect().',
+         'Timing assumption: a delivered fatal signal makes the child waitable within delayafterterminate.', '4/C10'),
 }
 PENDING = {}
 for i in range(5, 21):
